@@ -28,10 +28,11 @@ def offsets(ctx):
     return native.offsets(ctx, ['#include "intel-ipsec-mb.h"', '#include "include/ipsec_ooo_mgr.h"'], items)
 
 
-def build_unit(ctx, variant, bits):
+def build_unit(ctx, variant, bits, safe_data=True):
     v = VARIANTS[variant]
-    objs = [nasm(ctx, '%s/%s' % (v['dir'], v[k] % bits)) for k in ('submit', 'flush', 'kern')] + [nasm(ctx, 'x86_64/const.asm')]
-    out = os.path.join(ctx.scratch, 'cbc_%s_%d.o' % (variant, bits))
+    drop = () if safe_data else ('-DSAFE_DATA',)
+    objs = [nasm(ctx, '%s/%s' % (v['dir'], v[k] % bits), drop=drop) for k in ('submit', 'flush', 'kern')] + [nasm(ctx, 'x86_64/const.asm')]
+    out = os.path.join(ctx.scratch, 'cbc_%s_%d%s.o' % (variant, bits, '' if safe_data else '_nosafe'))
     link_reloc(ctx, objs, out)
     return Obj(out)
 
@@ -64,11 +65,11 @@ class Result:
         self.solver_s = 0.0
 
 
-def run_manager(ctx, variant, bits, op, free_lanes, maxblk=2, misalign=0, inplace=False, facets=('C01', 'C04', 'C07', 'C13'), res=None):
+def run_manager(ctx, variant, bits, op, free_lanes, maxblk=2, misalign=0, inplace=False, facets=('C01', 'C04', 'C07', 'C13'), res=None, safe_data=True):
     """op: 'submit' or 'flush'. free_lanes: tuple of lane indices that are free in the pre-state (stack order)."""
     res = res or Result()
     O = offsets(ctx)
-    obj = build_unit(ctx, variant, bits)
+    obj = build_unit(ctx, variant, bits, safe_data)
     v = VARIANTS[variant]
     rounds = {128: 10, 192: 12, 256: 14}[bits]
     KS = 16 * (rounds + 1)
@@ -283,8 +284,25 @@ def run_manager(ctx, variant, bits, op, free_lanes, maxblk=2, misalign=0, inplac
                     t = tainted(stkr.get(o))
                     if t:
                         leaks.append('stack[%d] <- %s' % (o - (rsp0 - STK), t[:1]))
+            # manager storage: the lane of the job handed back holds no IV / key pointer any more; with no other job in flight
+            # the whole manager image is free of key/plaintext-dependent bytes
+            # manager storage: lanes that are idle after the call (the lane of the job handed back and the never-used ones) hold no
+            # key/plaintext-dependent byte (ciphertext kept as chaining value of a lane STILL in flight is that job's own output, exempt)
+            for i in range(NL):
+                idle_after = simp(rd(fm, O['jil'] + 8 * i, 8))
+                c_idle = conc(idle_after)
+                for bo in range(16):
+                    t = fm.get(O['IV'] + 16 * i + bo)
+                    if not tainted(t):
+                        continue
+                    if c_idle is not None and c_idle != 0:
+                        continue          # lane still busy on this path
+                    r, m = E.check(f, And(rd(fm, O['jil'] + 8 * i, 8) == 0, t != 0)) if c_idle is None else (sat, None)
+                    if r == sat:
+                        leaks.append('manager IV slot of idle lane %d still holds a key/plaintext-dependent value' % i)
+                    break
             ok = not leaks
-            res.obl.append((name + ' ' + pre + 'C13 no key/plaintext-dependent term left in xmm0-15, caller-saved GPRs or the stack frame below the entry rsp', ok, '; '.join(leaks[:6]), 0))
+            res.obl.append((name + ' ' + pre + 'C13 no key/plaintext-dependent term left in xmm0-15, caller-saved GPRs, the stack frame below the entry rsp, or the lane storage of the returned job', ok, '; '.join(leaks[:6]), 0))
             if not ok:
                 res.viol.append(('C13:%s:residue' % name, 'secret-dependent residue after return: %s' % '; '.join(leaks[:8])))
     # ---- C07: bounds of in/out accesses relative to the lane's OWN length (symbolic) ----
@@ -333,12 +351,13 @@ def configs(quick):
 
 # ---------------------------------------------------------------------------------------------------------------
 def _task(args):
-    variant, bits, op, free, maxblk, misalign, inplace, facets = args
+    variant, bits, op, free, maxblk, misalign, inplace, facets = args[:8]
+    safe = args[8] if len(args) > 8 else True
     from vlib.core import Ctx
     c = Ctx('asmx_worker', 'quick', 0)
     try:
-        r = run_manager(c, variant, bits, op, free, maxblk=maxblk, misalign=misalign, inplace=inplace, facets=facets)
-        return dict(obl=r.obl, viol=r.viol, paths=r.paths, steps=r.steps, queries=r.queries, solver_s=r.solver_s, args=args[:7], src=dict(c.functions))
+        r = run_manager(c, variant, bits, op, free, maxblk=maxblk, misalign=misalign, inplace=inplace, facets=facets, safe_data=safe)
+        return dict(obl=r.obl, viol=r.viol, paths=r.paths, steps=r.steps, queries=r.queries, solver_s=r.solver_s, args=args[:7], src=dict(c.functions), nosafe=not safe)
     except Exception as e:
         import traceback
         return dict(obl=[('%s %s bits=%d free=%s' % (op, variant, bits, free), None, 'engine error: ' + traceback.format_exc()[-400:], 0)], viol=[], paths=0, steps=0,
@@ -359,6 +378,8 @@ def run_family(ctx, facets, prop):
         tasks.append(('sse', bits, 'submit', (3,), maxblk, 1, False, facets))      # misaligned buffers
         tasks.append(('sse', bits, 'submit', (3,), maxblk, 0, True, facets))       # in-place
         tasks.append(('sse', bits, 'flush', (2, 6), maxblk, 0, True, facets))
+    if prop == 'C13':
+        tasks.append(('sse', 128, 'submit', (3,), maxblk, 0, False, facets, False))   # must-fail twin: the same unit assembled WITHOUT SAFE_DATA
     ctx.bounds.update({'aes_cbc_enc_managers': 'submit/flush_job_aes{128,192,256}_enc_x8_sse + aes_cbc_enc_*_x8_sse kernels, real machine code',
                        'lane_lengths': 'every busy lane: symbolic multiple of 16 in [0, %d]; submitted job: symbolic length in [16, %d]; keys/IVs/data fully symbolic' % (16 * maxblk, 16 * maxblk + 15),
                        'occupancy_case_split': [('%s free=%s' % (o, ''.join(map(str, f)))) for o, f in configs(quick)]})
@@ -371,7 +392,10 @@ def run_family(ctx, facets, prop):
                 tot[k] += r[k]
             ctx.solver_s += r['solver_s']
             ctx.functions.update(r['src'])
+            twin = len(r['args']) >= 7 and r.get('twin')
             for name, ok, detail, secs in r['obl']:
+                if r.get('nosafe'):
+                    continue
                 if prop == 'C04' and ('C04' not in name and 'C14' not in name):
                     continue
                 if prop == 'C01' and 'C01' not in name:
@@ -381,6 +405,11 @@ def run_family(ctx, facets, prop):
                 if prop == 'C13' and 'C13' not in name:
                     continue
                 ctx.add(name, 'discharged' if ok else ('inconclusive' if ok is None else 'violated'), secs, 'asmx', detail)
+            if r.get('nosafe'):
+                got = any(k.startswith('C13') for k, t in r['viol'])
+                ctx.add('WITNESS the same unit assembled without -DSAFE_DATA leaves key/plaintext residue (must be reported)', 'violated' if got else 'discharged', 0, 'asmx',
+                        '; '.join(t for k, t in r['viol'])[:200], expect='violated')
+                continue
             for key, text in r['viol']:
                 if key.startswith(prop) or (prop == 'C04' and key.startswith('C14')) or (prop == 'C04' and key.startswith('C05')):
                     ctx.violation(key, text + ' (replay: props/asm_cbc.py run_manager%s re-executes the unit and prints the model)' % (r['args'],))
